@@ -44,13 +44,16 @@ Prb == << <<<<"4">>>>, <<<<"depth">>>>, <<<<"2", "var", "x", "x">>>>, <<<<":", "
 RtBad == << <<"1", "0", "/", "2", "3">>, <<"drop">>, <<"1", "2", "0", "do", "I", "drop", "drop", "loop", "5">>,
             <<":", "g", "1", "0", "/", ";", "g", "2">> >>
 
+\* submission styles: eval; repl = compile then run (what the REPL does);
+\* defer = the earlier source and the rejected one are only compiled, `run` comes afterwards;
+\* step  = a source failing at run time is compiled and single-stepped until it fails
 Styles == {"eval", "repl"}
 
 VARIABLES sc, verdict
 vars == <<sc, verdict>>
 
-Scen == [kind : {"build"}, h : 1..Len(H1), p : 1..Len(Pre), b : 1..Len(Bad), t : 1..Len(Trl), q : 1..Len(Prb), style : Styles]
-   \cup [kind : {"run"}, h : 1..Len(H1), p : {1}, b : 1..Len(RtBad), t : {1}, q : 1..Len(Prb), style : Styles]
+Scen == [kind : {"build"}, h : 1..Len(H1), p : 1..Len(Pre), b : 1..Len(Bad), t : 1..Len(Trl), q : 1..Len(Prb), style : Styles \cup {"defer"}]
+   \cup [kind : {"run"}, h : 1..Len(H1), p : {1}, b : 1..Len(RtBad), t : {1}, q : 1..Len(Prb), style : Styles \cup {"step"}]
 Keep(s) == Sample = 0 \/ (s.kind = "run") \/ ((s.h + s.t + s.p) % Sample = 0)
 
 Init == sc \in {s \in Scen : Keep(s)} /\ verdict = "todo"
@@ -59,6 +62,15 @@ Init == sc \in {s \in Scen : Keep(s)} /\ verdict = "todo"
 Do(m, ss, style) ==
   IF style = "eval" THEN X!Submit(m, X!Label(Toks(ss), m.srcs + 1), "eval")
   ELSE LET c == X!Submit(m, X!Label(Toks(ss), m.srcs + 1), "compile") IN IF X!Ok(c) THEN X!RunApi(c) ELSE c
+CompileOnly(m, ss) == X!Submit(m, X!Label(Toks(ss), m.srcs + 1), "compile")
+RECURSIVE StepAll(_, _)
+StepAll(m, fuel) == IF ~X!Ok(m) \/ ~X!Running(m) \/ fuel = 0 THEN m ELSE StepAll(X!NextApi(m), fuel - 1)
+\* the earlier source, the middle source and the probes in the roles a style gives them
+DoH1(m, ss, style) == IF style = "defer" THEN (IF ss = <<>> THEN m ELSE CompileOnly(m, ss)) ELSE Do(m, ss, IF style = "step" THEN "repl" ELSE style)
+DoMid(m, ss, style) == IF style = "defer" THEN CompileOnly(m, ss)
+                       ELSE IF style = "step" THEN (LET c == CompileOnly(m, ss) IN IF X!Ok(c) THEN StepAll(c, 600) ELSE c)
+                       ELSE Do(m, ss, style)
+PStyle(style) == IF style \in {"defer", "step"} THEN "repl" ELSE style
 Clr(m) == m
 Obs(m) == [err |-> m.err, vis |-> X!Visible(m), out |-> m.out]
 NoOut(m) == [m EXCEPT !.out = <<>>]
@@ -72,10 +84,13 @@ Boot == [X!Boot EXCEPT !.ilim = 500]
 Shape(m) == [mode |-> m.ctx.mode, nest |-> Len(m.nested), flow |-> Len(m.fs), inputs |-> Len(m.input)]
 
 Judge(s) ==
-  LET s0   == Do(Boot, H1[s.h], s.style)
-      bad  == Do(NoOut(s0), Middle(s), s.style)
-      with == Probes(bad, Prb[s.q], s.style)
-      without == Probes(s0, Prb[s.q], s.style)
+  LET s0   == DoH1(Boot, H1[s.h], s.style)
+      bad  == DoMid(NoOut(s0), Middle(s), s.style)
+      \* defer: `run` now executes whatever was compiled before the rejected source arrived
+      ra   == IF s.style = "defer" THEN X!RunApi(NoOut(bad)) ELSE bad
+      rb   == IF s.style = "defer" THEN X!RunApi(NoOut(s0)) ELSE s0
+      with == (IF s.style = "defer" THEN <<Obs(ra)>> ELSE <<>>) \o Probes(ra, Prb[s.q], PStyle(s.style))
+      without == (IF s.style = "defer" THEN <<Obs(rb)>> ELSE <<>>) \o Probes(rb, Prb[s.q], PStyle(s.style))
       rejectedAtBuild == ~X!Ok(bad) /\ Len(bad.code) = Len(s0.code)      \* nothing of it was kept
   IN [ h1ok |-> X!Ok(s0), baderr |-> bad.err, with |-> with, without |-> without,
        shape0 |-> Shape(s0), shape1 |-> Shape(bad), depth0 |-> Len(X!Visible(s0)), depth1 |-> Len(X!Visible(bad)),
